@@ -10,7 +10,7 @@ from ..core import Ctx, Report, snippet, where
 from ..intervals import IntSet, NotInterval, cond_to_intset, relation
 from ..model import AnalysisError, Class, Func, own_nodes, src
 from ..pathsem import function_paths, resolve_local
-from .common import chain, deep_resolve, reachable_without_edges
+from .common import chain, deep_resolve, reachable_without_edges, single_env
 
 PROPERTY = "C05"
 LEVEL = "other"
@@ -772,6 +772,111 @@ def _always_reraises(h: ast.ExceptHandler) -> bool:
     return False
 
 
+MUTATORS = ("append", "extend", "insert", "remove", "pop", "clear", "sort", "reverse", "update", "add", "discard", "setdefault", "popitem")
+
+
+def _memo_exposers(ctx: Ctx) -> Dict[int, Tuple[Func, str]]:
+    """Functions that can return the very list kept as a memo (not a copy): the memoising method itself when it returns
+    `self._m` or a local it also stores in `self._m`, and every function that returns such a call's result unchanged."""
+    out: Dict[int, Tuple[Func, str]] = {}
+    for cls in ctx.prog.classes.values():
+        for f in list(cls.methods.values()) + list(cls.getters.values()):
+            memo = _instance_memo(f)
+            if memo is None:
+                continue
+            stored_locals = {src(n.value) for n in own_nodes(f.node) if isinstance(n, ast.Assign) and isinstance(n.value, ast.Name) and any(isinstance(t, ast.Attribute) and src(t) == f"self.{memo}" for t in n.targets)}
+            for n in own_nodes(f.node):
+                if isinstance(n, ast.Return) and n.value is not None and (src(n.value) == f"self.{memo}" or src(n.value) in stored_locals):
+                    out[id(f)] = (f, f"returns its memo self.{memo} itself")
+    changed = True
+    while changed:
+        changed = False
+        for g in ctx.prog.funcs:
+            if id(g) in out:
+                continue
+            env = single_env(g.node)
+            for n in own_nodes(g.node):
+                if isinstance(n, ast.Return) and n.value is not None:
+                    v = n.value
+                    if isinstance(v, ast.Name) and v.id in env:
+                        v = env[v.id]
+                    if isinstance(v, ast.Call):
+                        for e in ctx.cg.all_edges(g):
+                            if e.site is v and id(e.target) in out and not e.weak:
+                                out[id(g)] = (g, f"returns {out[id(e.target)][0].qualname}() unchanged")
+                                changed = True
+                                break
+                if id(g) in out:
+                    break
+    return out
+
+
+def r05_9(ctx: Ctx, rep: Report, rid: str = "R05.9") -> None:
+    """The list a memoised method hands out is the memo itself: whoever receives it must not change it, or the owner
+    answers every later query from the changed list."""
+    rep.rule(rid)
+    exposers = _memo_exposers(ctx)
+    if not exposers:
+        rep.note(f"{rid} no method hands out its memo (copies only): nothing to protect")
+        return
+    names = {f.name for f, _ in exposers.values()}
+    n_sites = 0
+    for g in ctx.prog.funcs:
+        calls = []
+        for x in own_nodes(g.node):
+            if isinstance(x, ast.Call) and isinstance(x.func, ast.Attribute) and x.func.attr in names:
+                tg = [e.target for e in ctx.cg.all_edges(g) if e.site is x]
+                # unresolved receivers (getattr results, elements of untyped lists) count: the name is what the memoising classes share
+                if not tg or any(id(t) in exposers for t in tg):
+                    calls.append(x)
+        if not calls:
+            continue
+        cfg = ctx.cfg(g)
+        for c in calls:
+            n_sites += 1
+            rep.instance()
+            par = getattr(c, "_parent", None)
+            bad: Optional[ast.AST] = None
+            # direct: w.ipnets().append(x) / w.ipnets()[0] = x / w.ipnets() += ...
+            if isinstance(par, ast.Attribute) and par.attr in MUTATORS and isinstance(getattr(par, "_parent", None), ast.Call):
+                bad = par
+            elif isinstance(par, ast.Subscript) and par.value is c and isinstance(par.ctx, (ast.Store, ast.Del)):
+                bad = par
+            alias = None
+            if isinstance(par, (ast.Assign, ast.AnnAssign)) and par.value is c:
+                t = par.targets[0] if isinstance(par, ast.Assign) else par.target
+                if isinstance(t, ast.Name):
+                    alias = t.id
+            elif isinstance(par, ast.NamedExpr) and par.value is c and isinstance(par.target, ast.Name):
+                alias = par.target.id
+            if alias and bad is None:
+                dn = cfg.node_containing(c)
+                if dn is not None:
+                    def rebinding(m: Node, dn=dn, alias=alias) -> bool:
+                        return m is not dn and m.ast is not None and any(isinstance(y, ast.Name) and y.id == alias and isinstance(y.ctx, ast.Store) for y in (ast.walk(m.ast.target) if m.kind == "for" else ast.walk(m.ast) if m.kind in ("stmt", "cond") else []))
+
+                    for m in cfg.reachable(dn, avoid=rebinding, labels_avoid=("exc",)) | {dn}:
+                        if m.ast is None or m.kind not in ("stmt", "cond", "for"):
+                            continue
+                        root = m.ast.iter if m.kind == "for" else m.ast
+                        for y in ast.walk(root):
+                            if isinstance(y, ast.Name) and y.id == alias:
+                                py = getattr(y, "_parent", None)
+                                if isinstance(py, ast.Attribute) and py.attr in MUTATORS and isinstance(getattr(py, "_parent", None), ast.Call) and getattr(py, "_parent").func is py:
+                                    bad = py
+                                elif isinstance(py, ast.Subscript) and py.value is y and isinstance(py.ctx, (ast.Store, ast.Del)):
+                                    bad = py
+                                elif isinstance(py, ast.AugAssign) and py.target is y:
+                                    bad = py
+                        if bad is not None:
+                            break
+            if bad is not None:
+                rep.violation(g.qualname, f"{snippet(c, 40)} ... {snippet(getattr(bad, '_parent', bad), 50)}", "the list returned here is the owner's memo itself; changing it in place changes what the owner answers from then on (other members' networks end up inside this one's)", where(g, bad), inp="a group whose first member is a non-contiguous wildcard: group.ipnets(), then member.ipnets()")
+            else:
+                rep.ok(f"{g.qualname}: {snippet(c, 50)}", "the received memo list is only read", where=where(g, c), nontrivial=False)
+    rep.note(f"{rid} {len(exposers)} functions can hand out a memo list; {n_sites} receiving call sites examined")
+
+
 def run(ctx: Ctx, rep: Report, tier: str) -> None:
     n = memo_rules(ctx, rep)
     # positive fixture: the functools-cache form must be recognised on every run
@@ -790,3 +895,4 @@ def run(ctx: Ctx, rep: Report, tier: str) -> None:
 
     members_only_for_groups(ctx, rep, rid="R05.7")
     r05_8(ctx, rep)
+    r05_9(ctx, rep)
